@@ -115,7 +115,14 @@ for o in OBJECTS:
     j = to_json(o)
     if j.get(JSON_TYPE_NAME) != get_full_class_name(type(o)):
         rep.fail("tag", f"{o!r}: serialised form carries {j.get(JSON_TYPE_NAME)!r}, expected {get_full_class_name(type(o))!r}", {"value": repr(o)})
-ATOMS = LEAVES[:8] + LEAVES[16:20] + OBJECTS[:2] + OBJECTS[3:11]
+ATOMS = LEAVES[:8] + LEAVES[16:20] + [o for o in OBJECTS if not isinstance(o, uuid.UUID)][:18] + OBJECTS[:2]
+# every ordered pair of serialisable objects in ONE list (two objects of one class, of related classes, of same-named classes):
+# serialised forms must not share state
+for x_ in OBJECTS:
+    for y_ in OBJECTS:
+        if x_ is not y_:
+            check([x_, y_], "pair")
+            check([x_, [y_], x_], "pair-nested")
 
 
 def lists(depth, width):
